@@ -343,10 +343,18 @@ class MADDPG(MultiAgentRLAlgorithm):
 
         # Optimizers
         self.actor_optimizers = OptimizerWrapper(
-            optim.Adam, networks=self.actors, lr=self.lr_actor, multiagent=True
+            optim.Adam,
+            networks=self.actors,
+            lr=self.lr_actor,
+            lr_name="lr_actor",
+            multiagent=True,
         )
         self.critic_optimizers = OptimizerWrapper(
-            optim.Adam, networks=self.critics, lr=self.lr_critic, multiagent=True
+            optim.Adam,
+            networks=self.critics,
+            lr=self.lr_critic,
+            lr_name="lr_critic",
+            multiagent=True,
         )
 
         if self.accelerator is not None and wrap:
